@@ -1,6 +1,7 @@
 package engine
 
 import (
+	"bytes"
 	"fmt"
 	"math/big"
 	"strings"
@@ -188,6 +189,45 @@ func (g *Gen) heldBatch(v *Snapshot, a *Actor) (*basev1.Batch, *big.Rat) {
 
 // targetBatch: valid -> a batch the actor holds; hostile -> any batch.
 func (g *Gen) targetBatch(v *Snapshot, a *Actor, mode int) (*basev1.Batch, *big.Rat) {
+	if mode == ModeHostile && g.R.Chance(0.6) {
+		// a theft attempt: a batch the signer holds nothing of, sized to what somebody else holds -
+		// preferably somebody whose address starts with the signer's address bytes
+		type victim struct {
+			b   *basev1.Batch
+			bal *big.Rat
+			ext bool
+		}
+		var vs []victim
+		ext := 0
+		for _, r := range v.Balances {
+			o := AddrStr(r.Address)
+			tr, ok := DecOrZero(r.TradableAmount)
+			if o == a.Addr || !ok || tr.Sign() <= 0 {
+				continue
+			}
+			if mine := v.Balance(a.Addr, r.BatchKey); mine != nil {
+				continue
+			}
+			if b := v.BatchByKey(r.BatchKey); b != nil {
+				e := len(r.Address) > len(a.Acc) && bytes.Equal(r.Address[:len(a.Acc)], a.Acc)
+				if e {
+					ext++
+				}
+				vs = append(vs, victim{b, tr, e})
+			}
+		}
+		if len(vs) > 0 {
+			x := vs[g.R.Intn(len(vs))]
+			for try := 0; try < 8 && ext > 0 && !x.ext; try++ {
+				x = vs[g.R.Intn(len(vs))]
+			}
+			g.W.Probe("hostile_spend_of_a_batch_only_others_hold")
+			if x.ext {
+				g.W.Probe("hostile_spend_against_address_extending_the_signers")
+			}
+			return x.b, x.bal
+		}
+	}
 	if mode == ModeHostile {
 		b := g.anyBatch(v)
 		if b == nil {
@@ -219,10 +259,10 @@ func (g *Gen) creditAmount(bal *big.Rat, p int, mode int) string {
 		}
 		return g.badAmount(p)
 	case ModeHostile:
-		if g.R.Chance(0.4) {
+		if g.R.Chance(0.3) {
 			return g.badAmount(p)
 		}
-		if g.R.Chance(0.5) {
+		if g.R.Chance(0.4) {
 			return g.issueAmount(p)
 		}
 	}
@@ -1230,6 +1270,13 @@ func (g *Gen) dateCriteria(v *Snapshot, mode int) *baskettypes.DateCriteria {
 	case 0:
 		return nil
 	case 1:
+		if g.R.Chance(0.07) && !g.P.AvoidKnown {
+			// what the wire format can carry beyond what a calendar can: any seconds, any nanos
+			g.W.Probe("date_criterion_beyond_calendar_range")
+			return &baskettypes.DateCriteria{MinStartDate: &gogotypes.Timestamp{
+				Seconds: Pick(g.R, []int64{253402300800, 1000000000000, 1 << 62, -2208992400, 0, 4102444800}),
+				Nanos:   Pick(g.R, []int32{0, 0, -5, 999999999, 1000000000, -2147483648})}}
+		}
 		var t time.Time
 		if len(v.Batches) > 0 && g.R.Chance(0.6) {
 			t = TsTime(v.Batches[g.R.Intn(len(v.Batches))].StartDate).Add(time.Duration(g.R.Intn(3)-1) * time.Nanosecond)
@@ -1242,6 +1289,12 @@ func (g *Gen) dateCriteria(v *Snapshot, mode int) *baskettypes.DateCriteria {
 		}
 		return &baskettypes.DateCriteria{MinStartDate: ts}
 	case 2:
+		if g.R.Chance(0.07) && !g.P.AvoidKnown {
+			g.W.Probe("date_criterion_beyond_calendar_range")
+			return &baskettypes.DateCriteria{StartDateWindow: &gogotypes.Duration{
+				Seconds: Pick(g.R, []int64{86400, 86400, 315576000000, 315576000001, 1 << 62, 100000}),
+				Nanos:   Pick(g.R, []int32{0, -5, 999999999, 1000000000, -2147483648, 7})}}
+		}
 		var d time.Duration
 		if len(v.Batches) > 0 && g.R.Chance(0.6) {
 			d = v.Time.Sub(TsTime(v.Batches[g.R.Intn(len(v.Batches))].StartDate)) + time.Duration(g.R.Intn(20))*time.Second
